@@ -12,8 +12,37 @@ import Py4hwV.Emit.FlatText
 namespace FlatM
 open V
 
+/-- the N-ary gates And / Or / Nor (bitwise.py): a Buf for one input, else a ladder of And2 / Or2 through the internal wires
+    `ts`; Nor = Or (into `Mid`) + Not.  Text: `r = a & b & c`, `r = a | b | c`, `r = ~( a | b | c )` -/
+inductive NOp where | and | or | nor
+deriving Inhabited, Repr, DecidableEq
+
+def NOp.mk2 : NOp → Nat → Nat → Nat → Kind
+  | .and => Kind.and2
+  | _ => Kind.or2
+def NOp.vop : NOp → String
+  | .and => "and"
+  | _ => "or"
+
+def ladderLeaves (wd : Nat → Nat) (mk : Nat → Nat → Nat → Kind) : Nat → List Nat → List Nat → List CLeaf
+  | acc, x :: xs, o :: os => (mk acc x o).leaf wd :: ladderLeaves wd mk o xs os
+  | _, _, _ => []
+
+def gateLeaves (wd : Nat → Nat) (mk : Nat → Nat → Nat → Kind) (ins : List Nat) (r : Nat) (ts : List Nat) : List CLeaf :=
+  match ins with
+  | [] => []
+  | [a] => [(Kind.buf a r).leaf wd]
+  | a :: rest => ladderLeaves wd mk a rest (ts ++ [r])
+
+/-- `x0 op x1 op … ` (left associative, as the parser reads the emitted text) -/
+def binChain (op : String) : List String → Expr
+  | [] => lit 0
+  | x :: xs => xs.foldl (fun e y => .bin op e (.id y)) (.id x)
+
 inductive GKind where
   | prim (p : Kind)
+  | nary (op : NOp) (ins : List Nat) (r : Nat) (ts : List Nat) (mid : Nat)   -- `mid`: Nor's `Mid` (unused by And / Or)
+  | dm (isMod : Bool) (a b r : Nat)         -- Div / Mod: `r = a / b`, `r = a % b`; claimed only where the divisor is not 0 (`GKind.good`)
   | bitsL (a : Nat) (bits : List Nat)       -- BitsLSBF: one leaf, one put and one assign per bit
   | bitsM (a : Nat) (bits : List Nat)       -- BitsMSBF (`bits` as stored by the constructor: `bits[i]` is bit `i`)
   | nand2 (a b r t : Nat)                   -- Nand2 = And2 (into `t`, the block's `Mid`) + Not; text: `r = ~(a & b)`
@@ -36,6 +65,10 @@ def nandLeaves (wd : Nat → Nat) (a b r t : Nat) : List CLeaf := [(Kind.and2 a 
 /-- the simulator leaves of a child, in the order the exporter lists them -/
 def GKind.leaves (wd : Nat → Nat) : GKind → List CLeaf
   | .prim p => [p.leaf wd]
+  | .nary .nor ins r ts mid => gateLeaves wd Kind.or2 ins mid ts ++ [(Kind.not1 mid r).leaf wd]
+  | .nary op ins r ts _ => gateLeaves wd op.mk2 ins r ts
+  | .dm isMod a b r => [⟨[a, b], r, fun l => (if isMod then (Gen.Mod.step ⟨⟩ ⟨⟩ ⟨g l 1, g l 0⟩ ⟨⟩).2.r
+                                                 else (Gen.Div.step ⟨⟩ ⟨⟩ ⟨g l 1, g l 0⟩ ⟨⟩).2.r).getD 0, []⟩]
   | .bitsL a bits => bitsLeaf (bitsFnL (wd a)) a bits
   | .bitsM a bits => bitsLeaf (bitsFnM (wd a)) a bits
   | .nand2 a b r t => nandLeaves wd a b r t
@@ -50,6 +83,9 @@ def bitsAssigns (nm : Nat → String) (a : Nat) : List Nat → List (LHS × Expr
 /-- the assigns the emitter writes for the child (`InlineBitsLSBF`, `InlineNand2`, …), under the naming `nm` of its scope -/
 def GKind.assigns (wd : Nat → Nat) (nm : Nat → String) : GKind → List (LHS × Expr)
   | .prim p => [p.assign wd nm]
+  | .nary .nor ins r _ _ => [(.lid (nm r), .un "not" (binChain "or" (ins.map nm)))]
+  | .nary op ins r _ _ => [(.lid (nm r), binChain op.vop (ins.map nm))]
+  | .dm isMod a b r => [(.lid (nm r), .bin (if isMod then "mod" else "div") (.id (nm a)) (.id (nm b)))]
   | .bitsL a bits => bitsAssigns nm a bits
   | .bitsM a bits => bitsAssigns nm a bits
   | .nand2 a b r _ => [(.lid (nm r), .un "not" (.bin "and" (.id (nm a)) (.id (nm b))))]
@@ -59,6 +95,8 @@ def GKind.assigns (wd : Nat → Nat) (nm : Nat → String) : GKind → List (LHS
 /-- the nets the assigns drive, aligned with `assigns` -/
 def GKind.outs : GKind → List Nat
   | .prim p => [p.out]
+  | .nary _ _ r _ _ => [r]
+  | .dm _ _ _ r => [r]
   | .bitsL _ bits => bits
   | .bitsM _ bits => bits
   | .nand2 _ _ r _ => [r]
@@ -68,6 +106,8 @@ def GKind.outs : GKind → List Nat
 /-- the nets the assigns read -/
 def GKind.ins (wd : Nat → Nat) : GKind → List Nat
   | .prim p => (p.leaf wd).ins
+  | .nary _ ins _ _ _ => ins
+  | .dm _ a b _ => [a, b]
   | .bitsL a _ => [a]
   | .bitsM a _ => [a]
   | .nand2 a b _ _ => [a, b]
@@ -77,6 +117,12 @@ def GKind.ins (wd : Nat → Nat) : GKind → List Nat
 /-- side conditions (decidable): the covered forms; internal wires sized as the constructors size them -/
 def GKind.okb (wd : Nat → Nat) : GKind → Bool
   | .prim p => FlatSrc.Kind.okb wd p
+  | .nary .nor ins r ts mid =>
+      decide ((ins.length = 1 ∧ ts = []) ∨ ts.length + 2 = ins.length) && (ts.all fun t => decide (wd mid ≤ wd t)) &&
+      decide (wd r ≤ wd mid)
+  | .nary _ ins r ts _ =>
+      decide ((ins.length = 1 ∧ ts = []) ∨ ts.length + 2 = ins.length) && (ts.all fun t => decide (wd r ≤ wd t))
+  | .dm _ _ _ _ => true
   | .bitsL a bits => decide (bits.length = wd a) && decide bits.Nodup && !bits.contains a && decide (1 ≤ wd a) && decide (wd a - 1 < 2 ^ 32)
   | .bitsM a bits => decide (bits.length = wd a) && decide bits.Nodup && !bits.contains a && decide (1 ≤ wd a) && decide (wd a - 1 < 2 ^ 32)
   | .nand2 a _ r t => decide (wd a ≤ wd t) || decide (wd r ≤ wd t)
@@ -84,6 +130,15 @@ def GKind.okb (wd : Nat → Nat) : GKind → Bool
   | .xor2 a b r mid x y m0 m1 m2 m3 =>
       decide (wd mid = wd r) && decide (wd x = wd r) && decide (wd y = wd r) && decide (wd m0 = wd a) && decide (wd m1 = wd a) &&
       decide (wd m2 = wd b) && decide (wd m3 = wd r)
+
+/-- the condition on the wire values under which the child's text is claimed to agree: the divisor of Div / Mod is not 0 -/
+def GKind.good (V : Nat → Nat) : GKind → Prop
+  | .dm _ _ b _ => V b ≠ 0
+  | _ => True
+
+def GKind.isDm : GKind → Bool
+  | .dm _ _ _ _ => true
+  | _ => false
 
 /-! ## the certificate -/
 
@@ -113,7 +168,8 @@ namespace CertSrc
 def wd (C : CertSrc) (k : Nat) : Nat := C.widths.getD k 1
 def net (C : CertSrc) (n : String) : Option Nat := C.table.lookup n
 def combs (C : CertSrc) : List CLeaf := C.kinds.flatMap (GKind.leaves C.wd)
-def netD (C : CertSrc) : NetD := { wd := C.wd, combs := C.combs, regs := C.regs.map (·.leaf), order := C.order }
+def netD (C : CertSrc) : NetD :=
+  { wd := C.wd, combs := C.combs, regs := C.regs.map (·.leaf), order := C.order, good := fun V => ∀ k, k ∈ C.kinds → k.good V }
 def procs (C : CertSrc) : List (Event × Stmt) := C.regs.map RegI.proc
 def inits (C : CertSrc) : List (String × Expr) := C.regs.map fun R => (R.pfx ++ "rq", lit R.leaf.rv)
 /-- the flattened text -/
@@ -188,6 +244,9 @@ def checks (C : CertSrc) : List (String × Bool) :=
       C.regs.any fun R => nk.1 == R.pfx ++ "rq")]
 
 def check (C : CertSrc) : Bool := C.checks.all (·.2)
+
+/-- no Div / Mod child: the side condition `good` is vacuous -/
+def divFree (C : CertSrc) : Bool := C.kinds.all fun k => !k.isDm
 
 /-- name of the top-level input connected to net `k` -/
 def inName (C : CertSrc) (k : Nat) : String := (C.inputs.lookup k).getD "?"
